@@ -112,7 +112,8 @@ prop("C17", module="MW.Props.C17", title="complete pagination, consistent per-us
 prop("C09", module="MW.Props.C09", title="ibc-hooks sender derivation",
      variants=["receive_rewards", "receive_unstaked_tokens", "update_config"], state_keys=["config"],
      pure=["derive_intermediate_sender", "channel_ok", "validate_address_prefix"],
-     weights={"deliver": 25, "rewards": 25, "update_config": 10, "unauthorized": 10, "submit": 8, "unstake": 8, "stake": 10},
+     weights={"deliver": 25, "rewards": 25, "update_config": 14, "unauthorized": 10, "submit": 8, "unstake": 8, "stake": 10, "outage": 0},
+     profile={"reroute": 0.6},
      assumptions=["SHA-256 collision resistance (the no-impersonation theorem is a reduction to a collision)",
                   "the specification is osmosis x/ibc-hooks DeriveIntermediateSender + cosmos-sdk address.Hash; an independent Python implementation (hashlib + reference bech32) is compared on every generated triple"])
 
